@@ -245,7 +245,9 @@ func checkCanonical(run *core.Run, m *openfgav1.AuthorizationModel, r *rand.Rand
 		run.Count("modular_models", 1)
 		for k := 0; k < 3; k++ {
 			pm := clone()
-			r.Shuffle(len(pm.TypeDefinitions), func(a, b int) { pm.TypeDefinitions[a], pm.TypeDefinitions[b] = pm.TypeDefinitions[b], pm.TypeDefinitions[a] })
+			r.Shuffle(len(pm.TypeDefinitions), func(a, b int) {
+				pm.TypeDefinitions[a], pm.TypeDefinitions[b] = pm.TypeDefinitions[b], pm.TypeDefinitions[a]
+			})
 			p, e := transformer.TransformJSONProtoToDSL(pm)
 			run.Eval(1)
 			if e != nil || p != plain {
